@@ -83,6 +83,7 @@ def probe_traces(ctx):
             m = ir.Module("probe", debug_db=DebugDb())
             f = ir.Function("f", ir.Binding.GLOBAL, getattr(ir, rty))
             m.add_function(f)
+            f._vm = m
             b = ir.Block("entry")
             f.add_block(b)
             f.entry = b
@@ -142,6 +143,47 @@ def probe_traces(ctx):
                     yes.add_instruction(ir.Return(ps[0]))
                     no.add_instruction(ir.Return(ps[1]))
                 probes.append(("cjmp:%s:%s" % (cond, t), "CJMP" + t.upper(), fn_module(build, t, [t, t])))
+        # memory copies, literals, calls, globals
+        T0 = types[-1] if types else "i32"
+        for nbytes in (1, 2, 3, 4, 8, 12, 16):
+            for kind in ("stack_to_global", "global_to_stack", "stack_to_stack"):
+                def build(ir, f, b, ps, nbytes=nbytes, kind=kind, T0=T0):
+                    g = ir.Variable("G", ir.Binding.GLOBAL, 16, 4, value=bytes(range(16)))
+                    f._vm.add_variable(g)
+                    a1 = ir.Alloc("a1", 16, 4)
+                    p1 = ir.AddressOf(a1, "p1")
+                    a2 = ir.Alloc("a2", 16, 4)
+                    p2 = ir.AddressOf(a2, "p2")
+                    for x in (a1, p1, a2, p2):
+                        b.add_instruction(x)
+                    if kind == "stack_to_global":
+                        b.add_instruction(ir.CopyBlob(g, p1, nbytes))
+                    elif kind == "global_to_stack":
+                        b.add_instruction(ir.CopyBlob(p1, g, nbytes))
+                    else:
+                        b.add_instruction(ir.CopyBlob(p2, p1, nbytes))
+                    b.add_instruction(ir.Return(ps[0]))
+                probes.append(("copyblob:%s:%d" % (kind, nbytes), "MOVB", fn_module(build, T0, [T0])))
+        for nargs in (0, 1, 4, 7, 9):
+            def build(ir, f, b, ps, nargs=nargs, T0=T0):
+                x = ir.ExternalFunction("ext", [getattr(ir, T0)] * nargs, getattr(ir, T0))
+                f._vm.add_external(x)
+                r = ir.FunctionCall(x, [ps[0]] * nargs, "r", getattr(ir, T0))
+                b.add_instruction(r)
+                b.add_instruction(ir.Return(r))
+            probes.append(("call:%d" % nargs, "CALL", fn_module(build, T0, [T0])))
+        for t in types:
+            def build(ir, f, b, ps, t=t):
+                lit = ir.LiteralData(bytes(range(8)), "lit")
+                la = ir.AddressOf(lit, "la")
+                ld = ir.Load(la, "ld", getattr(ir, t))
+                g = ir.Variable("G", ir.Binding.GLOBAL, 8, 8, value=bytes(8))
+                f._vm.add_variable(g)
+                st = ir.Store(ld, g)
+                gl = ir.Load(g, "gl", getattr(ir, t))
+                for x in (lit, la, ld, st, gl, ir.Return(gl)):
+                    b.add_instruction(x)
+            probes.append(("literal_global:%s" % t, "LDR" + t.upper(), fn_module(build, t, [t])))
         for name, opname, make in probes:
             ev, obj, msg = pipeline.run_pipeline(make, march, "0")
             out.append({"id": "C29:%s:probe:%s" % (march, name), "claim": "C29", "events": ev, "msg": msg,
@@ -183,6 +225,12 @@ def judge(ctx, trs, prop):
         if not t.get("probe") and (any((o + "(") in msg_ or (o + "[") in msg_ for o in fo)
                                    or (msg_.startswith("KeyError") and msg_ in failed_msgs.get(t.get("march"), set()))):
             ctx.cov["failures_explained_by_failed_probe"] = ctx.cov.get("failures_explained_by_failed_probe", 0) + 1
+            continue
+        if not t.get("probe") and msg_.startswith("RuntimeError: Tree ") and msg_.rstrip().endswith("not covered"):
+            # the instruction selector's "tree not covered" call site, on a tree built from operators whose
+            # elementary probes pass: one finding per target (listed), not one per random module
+            key = "C29:%s:random-module:tree-not-covered" % t["march"]
+            ctx.violation(key, "%s: %s" % (t["id"], msg_[:300]), {"id": t["id"], "source": t.get("src"), "clause": e.name})
             continue
         last = evs[min(max(l - 2, 0), len(evs) - 1)] if evs else {}
         key = "%s:%s:%s:%s" % (t["id"], last.get("st"), last.get("out"), e.name)
